@@ -289,7 +289,12 @@ fn run_req(d: &mut Dut, r: &Req) -> Outcome {
             let c = ps.iter().filter(|(t, _)| Some(*t) == caller_id).count();
             let m = ps.len() - c;
             let o = match res { None => "hang".to_string(), Some(Err(_)) => "panic".to_string(), Some(Ok(Err(e))) => format!("err:{}", err_kind(&e)), Some(Ok(Ok(_))) => "ok".to_string() };
-            Outcome { tok: format!("qn.{}.{}.{}", COLS_T.load(Ordering::SeqCst).max(1).min(9), m.min(9), c.min(1)), out: o, class: format!("natural:{}", if c > 0 { "callerpanic" } else if m > 0 { "workerpanic" } else { "nopanic" }),
+            let p = COLS_T.load(Ordering::SeqCst).max(1).min(9);
+            // no panic anywhere: the statement was an ordinary one (valid, or answered with an error value)
+            let tok = if c == 0 && m == 0 {
+                match o.strip_prefix("err:") { Some(k) => format!("qv.{}", k), None => format!("q.{}", "d".repeat(p)) }
+            } else { format!("qn.{}.{}.{}", p, m.min(9), c.min(1)) };
+            Outcome { tok, out: o, class: format!("natural:{}", if c > 0 { "callerpanic" } else if m > 0 { "workerpanic" } else { "nopanic" }),
                       note: format!("{} | {}", sql, ps.iter().map(|p| p.1.clone()).collect::<Vec<_>>().join(" ; ")) }
         }
         Req::Task { fault } => {
@@ -683,7 +688,7 @@ fn main() {
     // ---- bounded-exhaustive: all sequences of length 2 (thorough: 3) over the request alphabet, n = 1..3
     let alphabet: Vec<Req> = vec![q(None), q(Some(0)), Req::ErrQuery { sql: ERR_SQL[0].0.into(), kind: ERR_SQL[0].1 }, Req::Task { fault: true }, Req::Stats,
         Req::Ingest { rows: 2 }, fl(2, true, false, false), fl(2, false, false, true)];
-    let mut exh = |len: usize, ns: &[usize], keep: &dyn Fn(usize, usize) -> bool, cases: &mut Cases| {
+    let exh = |len: usize, ns: &[usize], keep: &dyn Fn(usize, usize) -> bool, cases: &mut Cases| {
         let total = alphabet.len().pow(len as u32);
         for &n in ns {
             for code in 0..total {
